@@ -106,10 +106,40 @@ func c35run(c *runner.Ctx) runner.Result {
 	wit := func() interface{} {
 		return map[string]interface{}{"history": rec.H, "effects_tail": effectsTail(rec, n, 16)}
 	}
+	// the request that was started concurrently with Shutdown() (shutdown_inflight cases)
+	lateVs := map[int64]bool{}
+	if inflight && len(h.Threads) > 0 && len(h.Threads[0]) > 0 {
+		for _, vv := range effectivePayloads(h.Threads[0][len(h.Threads[0])-1]) {
+			lateVs[vv] = true
+		}
+		for _, b := range h.Threads[0][len(h.Threads[0])-1].Buckets {
+			for _, r2 := range b.Rows {
+				lateVs[r2.V] = true
+			}
+		}
+	}
 	// the WAL left behind must need no replay
+	shutRace := false
 	for p, msgs := range final.walImages() {
 		if rp := replayable(msgs); len(rp) > 0 {
-			res.Violation(fmt.Sprintf("after graceful shutdown %s still holds %d transaction(s) not covered by a completed checkpoint (first TGID %d): a restart replays them", p, len(rp), rp[0].TGID), wit())
+			// listed defect F-SHUTRACE: a request that races with Shutdown() finds the background writer gone,
+			// flushes inline after the loop's final checkpoint, and nobody checkpoints its transaction
+			only := len(lateVs) > 0
+			for _, tg := range rp {
+				for _, c := range tg.Cmds {
+					for _, vv := range c.Vs {
+						if !lateVs[vv] {
+							only = false
+						}
+					}
+				}
+			}
+			if only {
+				shutRace = true
+				res.Known("F-SHUTRACE", fmt.Sprintf("after graceful shutdown %s holds %d un-checkpointed transaction(s) carrying exactly the request that was in flight when Shutdown() was called; a restart replays them", p, len(rp)), nil)
+			} else {
+				res.Violation(fmt.Sprintf("after graceful shutdown %s still holds %d transaction(s) not covered by a completed checkpoint (first TGID %d): a restart replays them", p, len(rp), rp[0].TGID), wit())
+			}
 		}
 		res.Count("wal_messages_decoded", int64(len(msgs)))
 	}
@@ -160,7 +190,11 @@ func c35run(c *runner.Ctx) runner.Result {
 	}
 	res.Count("queries_compared", int64(nq))
 	if diff := dumpDiff(&d2, d3); diff != "" {
-		res.Violation("query results after restart differ from those right after Shutdown() returned: "+diff, wit())
+		if shutRace && onlyLateDiffers(&d2, d3, lateVs) {
+			res.Known("F-SHUTRACE", "query results after restart differ from those right after Shutdown() only by the replayed in-flight request: "+diff, nil)
+		} else {
+			res.Violation("query results after restart differ from those right after Shutdown() returned: "+diff, wit())
+		}
 	}
 	if !inflight {
 		if diff := dumpDiff(&d1, &d2); diff != "" {
@@ -175,8 +209,13 @@ func c35run(c *runner.Ctx) runner.Result {
 	}
 	for _, is := range append(append([]runner.Issue{}, v.C01...), v.C02...) {
 		if is.Status == "known" && is.Finding == "F-DUP" {
-			// a duplicate after a *graceful* shutdown is not the crash-window defect: report it
-			is.Status, is.Finding = "violation", ""
+			// a duplicate after a *graceful* shutdown is not the crash-window defect: report it, unless it
+			// is the replay of the request that raced with Shutdown()
+			if shutRace {
+				is.Finding = "F-SHUTRACE"
+			} else {
+				is.Status, is.Finding = "violation", ""
+			}
 		}
 		if is.Status == "violation" {
 			is.Witness = wit()
@@ -205,6 +244,24 @@ func c35run(c *runner.Ctx) runner.Result {
 		res.Sample = map[string]interface{}{"history": summarise(rec, 1), "end": h.End, "pre_shutdown_us": h.PreShutdownUs, "loop_events": trunc(sig, 300), "shutdown_tail": dedupRuns(tailKinds)}
 	}
 	return res
+}
+
+// onlyLateDiffers: the two dumps agree once rows carrying the late request's payloads are removed.
+func onlyLateDiffers(a, b *hist.Dump, late map[int64]bool) bool {
+	strip := func(d *hist.Dump) *hist.Dump {
+		o := &hist.Dump{Buckets: map[string]hist.BucketDump{}}
+		for k, bd := range d.Buckets {
+			nb := hist.BucketDump{Err: bd.Err, Variable: bd.Variable}
+			for _, r := range bd.Rows {
+				if !late[r[2]] {
+					nb.Rows = append(nb.Rows, r)
+				}
+			}
+			o.Buckets[k] = nb
+		}
+		return o
+	}
+	return dumpDiff(strip(a), strip(b)) == ""
 }
 
 func dedupRuns(xs []string) []string {
